@@ -134,8 +134,9 @@ type hpConnRec struct {
 // world: network state + scripts + log
 
 type hpWorld struct {
-	sc    *hpScenario
-	start time.Time
+	sc      *hpScenario
+	start   time.Time
+	initial bool // while the initial conns are being set up
 
 	mu        sync.Mutex
 	conns     []*hpConn // open, oldest first (as swarm.ConnsToPeer)
@@ -193,7 +194,11 @@ func (w *hpWorld) addConn(p peer.ID, spec string, raddr ma.Multiaddr) *hpConn {
 	w.conns = append(w.conns, c)
 	w.hist = append(w.hist, c.rec)
 	nf := append([]network.Notifiee(nil), w.notifiees...)
-	w.log = append(w.log, hpEv{T: c.rec.Opened, G: hpGoid(), Kind: "net", Note: "open " + spec, Peer: hpPeerName(p), Conn: c.id, ConnRelayed: c.relayed, ConnLimited: c.limited})
+	note := "open " + spec
+	if w.initial { // conns that exist before the service does: older than anything the service observes
+		c.rec.Opened, note = -1, "initially open "+spec
+	}
+	w.log = append(w.log, hpEv{T: w.now(), G: hpGoid(), Kind: "net", Note: note, Peer: hpPeerName(p), Conn: c.id, ConnRelayed: c.relayed, ConnLimited: c.limited})
 	w.mu.Unlock()
 	for _, f := range nf {
 		f.Connected(c.w.net(), c)
@@ -575,7 +580,7 @@ func (h *hpHost) NewStream(ctx context.Context, p peer.ID, pids ...protocol.ID) 
 	w.remotes.Add(1)
 	go func() {
 		defer w.remotes.Done()
-		w.remoteResponder(b, script, n)
+		w.remoteResponder(b, script)
 	}()
 	e.OK = true
 	w.rec(e)
